@@ -1138,6 +1138,10 @@ def _convert_keys(keys_var: cfg.Variable):
   return tuple(map(abstract_utils.get_atomic_python_constant, keys))
 
 
+def _count_keys(keys_var: cfg.Variable) -> int:
+  return len(abstract_utils.get_atomic_python_constant(keys_var, tuple))
+
+
 def match_sequence(obj_var: cfg.Variable) -> bool:
   """See if var is a sequence for pattern matching."""
   return (
@@ -1166,10 +1170,14 @@ def match_keys(
     node, obj_var: cfg.Variable, keys_var: cfg.Variable, ctx
 ) -> cfg.Variable | None:
   """Pick values out of a mapping for pattern matching."""
-  keys = _convert_keys(keys_var)
-  if _var_maybe_unknown(obj_var):
+  try:
+    keys = _convert_keys(keys_var)
+  except abstract_utils.ConversionError:
+    # A key we have no constant for, e.g. a float literal or an enum member.
+    keys = None
+  if keys is None or _var_maybe_unknown(obj_var):
     return ctx.convert.build_tuple(
-        node, [ctx.new_unsolvable(node) for _ in keys]
+        node, [ctx.new_unsolvable(node) for _ in range(_count_keys(keys_var))]
     )
   try:
     mapping = abstract_utils.get_atomic_python_constant(
@@ -1294,7 +1302,10 @@ def copy_dict_without_keys(
   # unchanged; at worst it will be a superset of the correct type.
   if not all(abstract_utils.is_concrete_dict(x) for x in obj_var.data):
     return obj_var
-  keys = _convert_keys(keys_var)
+  try:
+    keys = _convert_keys(keys_var)
+  except abstract_utils.ConversionError:
+    return obj_var
   ret = abstract.Dict(ctx)
   for data in obj_var.data:
     # NOTE: We cannot call `ret.update(data, omit=keys)` because that tries to
